@@ -3,6 +3,8 @@
 Everything in this file that is *not* a translation of /repo code is an
 assumption and is reported as such (see MODELS_DOC, collected in evidence)."""
 import re
+import sys
+import os
 import cxx2c
 from cxx2c import Translator, X, Ty, parse_type, fn_ret_type, deref, addr, BUILTIN, sanitize
 from astload import ExtractionBreak, repo_path
@@ -65,6 +67,8 @@ class Extractor(Translator):
     def intercept_call(self, fid, e, args, obj):
         info = self.ast.finfo(fid)
         q = info.get("qname", "")
+        if os.environ.get("VERIF_DEBUG_CALLS") and self.cur is not None and os.environ["VERIF_DEBUG_CALLS"] in self.cur.cname:
+            sys.stderr.write("CALL in %s: %s [%s]\n" % (self.cur.cname, q, info.get("type")))
         h = self.opts.get("intercept", {}).get(q)
         if h is not None:
             r = h(self, fid, e, args, obj)
